@@ -114,7 +114,7 @@ theorem readNextBlock_sound (cfg : Cfg) (d : Decoder) (crc : Checksum) (rest : B
     split at h
     · cases h
     · split at h
-      · cases h
+      · split at h <;> cases h
       · rename_i hav
         split at h
         · cases h
@@ -252,7 +252,7 @@ theorem blockAlloc_ok_le (cfg : Cfg) (d : Decoder) (crc : Checksum) (rest : Byte
   · split at h
     · cases h
     · split at h
-      · cases h
+      · split at h <;> cases h
       · rename_i hav
         split at h
         · cases h
